@@ -311,9 +311,17 @@ def ob_combined(ctx):
         contents.append(exp)
     comb = base.CombinedRegistry()
     order = P["order"]
-    for a in order:
-        r = comb << regs[a]
-        ctx.require(r is comb, "lshift-does-not-return-the-registry")
+    if P.get("nested"):
+        # the members arrive through an inner combined registry that keeps growing: it is added, extended, added again
+        inner = base.CombinedRegistry()
+        for a in order:
+            inner << regs[a]
+            r = comb << inner
+            ctx.require(r is comb, "lshift-does-not-return-the-registry")
+    else:
+        for a in order:
+            r = comb << regs[a]
+            ctx.require(r is comb, "lshift-does-not-return-the-registry")
     # expected union, first added wins
     union = []
     for a in order:
@@ -462,6 +470,9 @@ def obligations(tier, seed):
     for c in combos:
         obs.append(Ob("combined registries sizes=%s order=%s" % (c["sizes"], c["order"]), ob_combined, c, samples=6,
                       cost=40 ** sum(c["sizes"])))
+    for c in combos[:tier_pick(tier, 1, 3)]:
+        obs.append(Ob("combined registries sizes=%s order=%s through a growing inner combination" % (c["sizes"], c["order"]),
+                      ob_combined, dict(c, nested=True), samples=6, cost=40 ** sum(c["sizes"]), group="history"))
     for e in [1, 2, 3]:
         obs.append(Ob("directory with %d entries" % e, ob_directory, dict(entries=e), samples=8, cost=70 ** e))
     obs.append(Ob("bundled archives (concrete side condition)", ob_bundled, {}, samples=1, cost=5))
